@@ -91,6 +91,8 @@ JudgeC16(rec) ==
             "debsig verification succeeded although the signature does not cover the loaded members">>,
           <<\A k \in 1..Len(rec.reps) : rec.reps[k].sig_ok => rec.reps[k].signer \in ring,
             "reported signer is not a key of the keyring">>,
+          <<\A i, j \in 1..Len(rec.reps) : rec.reps[i].id = rec.reps[j].id,
+            "loading and checking the same signed package repeatedly gives different results (control data, payload or verdict)">>,
           <<rec.first.ok => \A k \in 1..Len(rec.first.sig_again) :
                 LET a == rec.first.sig_again[k]  r2 == {a.ring[i] : i \in 1..Len(a.ring)} IN
                 /\ a.ok => (a.signer \in r2 /\ unique /\ sigs # {} /\
